@@ -3,6 +3,6 @@
 # applies seeded/<dir>/patch.diff to /repo, runs the property's check, reverts.
 D=/verif/seeded/$1; P=$2; T=${3:-quick}
 cd /repo && git apply "$D/patch.diff" || { echo "patch does not apply"; exit 3; }
-cd /verif && timeout 3000 ./check $P --tier $T > /tmp/seed_$1_$P.out 2>&1; rc=$?
+cd /verif && VERIF_OUT=/tmp/seed_out timeout 3000 ./check $P --tier $T > /tmp/seed_$1_$P.out 2>&1; rc=$?
 git -C /repo checkout -- . 
 echo "seed=$1 prop=$P tier=$T rc=$rc"; grep -A1 "VIOLATION\|INCONCL" /tmp/seed_$1_$P.out | grep "label=\|INCONCL" | cut -c1-220 | sort | uniq | head -${N:-4}
